@@ -4,7 +4,7 @@ C19 — a refinement run never loses the user's model, whatever SHELXL does.
 The real `Shelxfile.refine()` is driven against a scripted stand-in for the `shelxl` executable (a shell script that
 carries the 'Version 201x/y' marker the finder looks for, placed first on PATH for the duration of a case). A side
 channel file tells the stand-in which outcome to play: exit status; <name>.res written from the .ins / emptied /
-removed / left alone / filled with garbage; <name>.lst well-formed / missing / malformed in four ways. Everything
+removed / left alone / filled with garbage / truncated; the process exits with a code or dies by a signal; <name>.lst well-formed / missing / malformed in four ways. Everything
 happens in a tempfile.mkdtemp() directory outside the worktrees, removed afterwards; printing is suppressed.
 
 Streams (DESIGN 3.2):
@@ -43,6 +43,7 @@ case "$RES" in
   empty) : > "$n.res" ;;
   missing) rm -f "$n.res" ;;
   garbage) printf 'TITL\n** crashed while writing **\n\n' > "$n.res" ;;
+  truncated) head -c 300 "$n.ins" > "$n.res" ;;
   untouched) ;;
 esac
 [ "$RES" != untouched ] && cp "$n.res" "c19_log/res_$RUN" 2>/dev/null
@@ -54,6 +55,10 @@ case "$LST" in
   nolatt) grep -v LATT c19_lst_good > "$n.lst"; printf '\n' >> "$n.lst" ;;
   missing) ;;
 esac
+if [ "$EXIT" -lt 0 ]; then
+  kill "$EXIT" $$          # death by signal: subprocess reports the negative signal number
+  sleep 5
+fi
 exit $EXIT
 '''
 
@@ -71,8 +76,18 @@ LST_GOOD = ''' LATT  -1
 
 #: .lst variants by what `check_refinement_results` does with them on the tree as found
 LST_CLASS = dict(good='good', missing='missing', short='raises', empty='raises', nolatt='raises', nofinal='quiet')
-EXITRES = [(0, 'good'), (0, 'empty'), (0, 'missing'), (1, 'good'), (1, 'empty'), (1, 'missing'), (1, 'untouched'),
-           (3, 'garbage')]
+#: how the program ends (`Popen.returncode`): 0, small and large exit codes, death by signal (negative: SEGV, KILL, ABRT, TERM)
+EXIT_MAIN = [0, 1, -11]
+EXIT_MORE = [3, 127, 255, -9, -6, -15]
+RES_OK = ['good', 'empty', 'missing']                         # with status 0 (a partly written file is not detectable)
+RES_ALL = ['good', 'empty', 'missing', 'untouched', 'garbage', 'truncated']
+
+
+def exitres(exits):
+    return [(ex, res) for ex in exits for res in (RES_OK if ex == 0 else RES_ALL)]
+
+
+EXITRES = exitres(EXIT_MAIN)
 STALE = 'TITL an old backup of something else\nCELL 0.71073 5 5 5 90 90 90\nEND\n'
 
 
@@ -254,7 +269,7 @@ def outcome_class(call, spec):
     if not spec['failed']:
         return 'ok'
     if call['exit'] != 0:
-        return 'exit!=0,res=' + call['res']
+        return ('signal' if call['exit'] < 0 else 'exit>0') + ',res=' + call['res']
     return 'res=' + call['res']
 
 
@@ -375,6 +390,11 @@ def singles():
         i = len(out)
         out.append(dict(file=mk_file(acta, cgls=(i % 5 == 0)), stale_bak=(i % 2 == 1), hkl=True,
                         calls=[dict(exit=ex, res=res, lst=lst, backup=backup, cycles=cyc)]))
+    # every other way of ending, with every state of the result file
+    for (ex, res), lst, backup, acta in itertools.product(exitres(EXIT_MORE), ['good', 'short'], [True, False], ['none', 'later']):
+        i = len(out)
+        out.append(dict(file=mk_file(acta), stale_bak=(i % 2 == 1), hkl=True,
+                        calls=[dict(exit=ex, res=res, lst=lst, backup=backup, cycles=None if i % 3 else 5)]))
     # the other directory states / file shapes, on the outcome classes
     for (ex, res), backup, acta, stale in itertools.product(EXITRES, [True, False], ['none', 'later', 'after_unit'], [True, False]):
         out.append(dict(file=mk_file(acta), stale_bak=stale, hkl=True,
@@ -389,7 +409,8 @@ def singles():
 
 
 SEQ_OUT = [(0, 'good', 'good'), (0, 'good', 'short'), (0, 'empty', 'good'), (0, 'missing', 'good'), (1, 'good', 'good'),
-           (1, 'untouched', 'missing'), (1, 'missing', 'nolatt'), (3, 'garbage', 'good')]
+           (1, 'untouched', 'missing'), (1, 'missing', 'nolatt'), (3, 'garbage', 'good'),
+           (-11, 'good', 'good'), (-9, 'truncated', 'missing')]
 
 
 def seq_alphabet(outs):
@@ -404,7 +425,8 @@ def with_cycles(calls):
 def run(ctx):
     ctx.rule = ('one case = a freshly read file (ACTA absent / directly after UNIT / two lines later; one or two FVAR lines; '
                 'L.S. or CGLS) in a directory (with or without an old .shx-bak, with or without .hkl) + 1..3 refine() calls, '
-                'each with an outcome of the stand-in (exit 0/1/3 x .res written from .ins/empty/removed/untouched/garbage '
+                'each with an outcome of the stand-in (status 0 / exit 1,3,127,255 / killed by signal 6,9,11,15 x .res written from .ins/'
+                'empty/removed/untouched/garbage/truncated '
                 'x .lst good/missing/short/empty/no-LATT/no-final), backup on/off, cycles None/0/3/4/6/7; one evaluation per '
                 'call, distinct by the history up to it; non-trivial = the stand-in was actually started in that call')
     ctx.assumptions = ['result files are empty or at least 10 bytes long (hypothesis `plausible`)',
@@ -417,7 +439,7 @@ def run(ctx):
     thorough = ctx.tier == 'thorough' or ctx.escalated
     if thorough:
         pairs = list(itertools.product(alpha, repeat=2))
-        small = seq_alphabet([SEQ_OUT[i] for i in (0, 1, 2, 3, 4, 5)])
+        small = seq_alphabet([SEQ_OUT[i] for i in (0, 1, 2, 3, 8, 5)])
         triples = list(itertools.product(small, repeat=3))
         ctx.extra['sequences'] = f'all {len(pairs)} pairs over {len(alpha)} call kinds and all {len(triples)} triples over {len(small)}, each with and without ACTA'
         ctx.exhaustive = True
